@@ -26,9 +26,24 @@ func runC08Timeout(c *sim.Ctx, t *testing.T) {
 	mode := c.Intn(3, "errmode")
 	tickD := []time.Duration{time.Millisecond, 4 * time.Millisecond, 10 * time.Millisecond}[c.Intn(3, "tickd")]
 	via := []string{"walk", "step", "exec"}[c.Intn(3, "via")]
+	// after which emissions the script lets (simulated) time pass; lastTick < n: the tail of
+	// the script runs without any pause, so that it can complete although its time is up
+	// (the watcher has not been scheduled yet) - then all of its emissions count
+	lastTick := n
+	atWake := false
+	if c.Chance(1, 2, "quicktail") {
+		lastTick = 1 + c.Intn(n, "lasttick")
+		// the time is up at the very instant the pause ends: script and watcher wake
+		// together and the scheduler decides who goes first
+		atWake = c.Bool("atwake")
+	}
 	var sb strings.Builder
 	for i := 0; i < n; i++ {
-		fmt.Fprintf(&sb, "_.out({\"e\": %d}); _.props.tick();\n", i+1)
+		fmt.Fprintf(&sb, "_.out({\"e\": %d});", i+1)
+		if i < lastTick {
+			sb.WriteString(" _.props.tick();")
+		}
+		sb.WriteString("\n")
 	}
 	sb.WriteString("return _.bindings;\n")
 	src := sb.String()
@@ -39,9 +54,14 @@ func runC08Timeout(c *sim.Ctx, t *testing.T) {
 		deadline := time.Duration(k)*tickD + tickD/2
 		if k == n {
 			deadline = time.Duration(n+2) * tickD
+		} else if k >= lastTick {
+			continue // no pause there
+		} else if atWake {
+			deadline = time.Duration(k+1) * tickD
 		}
 		var emitted []interface{}
 		var errText, node string
+		actionError := false
 		returned := false
 		sim.Bubble(c, t, func(s *sim.Sched) {
 			s.Horizon = time.Minute
@@ -84,6 +104,7 @@ func runC08Timeout(c *sim.Ctx, t *testing.T) {
 							emitted = stride.Emitted
 							if stride.To != nil {
 								node = stride.To.NodeName
+								_, actionError = stride.To.Bs["actionError"]
 							}
 						}
 					} else {
@@ -92,6 +113,7 @@ func runC08Timeout(c *sim.Ctx, t *testing.T) {
 							emitted = allEmitted(w)
 							if to := w.To(); to != nil {
 								node = to.NodeName
+								_, actionError = to.Bs["actionError"]
 							}
 						}
 					}
@@ -107,7 +129,16 @@ func runC08Timeout(c *sim.Ctx, t *testing.T) {
 			c.Violate("emit:timeout:still-running", "%s: the call did not return", desc)
 			return
 		}
-		if k < n {
+		completed := (via == "exec" && errText == "") || (via != "exec" && node == "b" && !actionError)
+		if k < n && completed {
+			// the time ran out in the last pause and the rest of the script won the race
+			// against the watcher: a completed action, all of its emissions count
+			c.Count("completed_after_deadline")
+			if len(emitted) != n {
+				c.Violate("emit:completed-late:"+via, "%s: the action completed (its time ran out while it was running, the interrupt came too late) but %d of its %d emissions were reported (error %q, node %q)", desc, len(emitted), n, errText, node)
+				return
+			}
+		} else if k < n {
 			c.Count("timed_out_actions")
 			if len(emitted) != 0 {
 				c.Violate("emit:timeout:"+via, "%s: the action timed out but contributed %s (error %q, node %q)", desc, canonList(emitted), errText, node)
@@ -122,7 +153,7 @@ func runC08Timeout(c *sim.Ctx, t *testing.T) {
 		}
 	}
 	c.Add("deadline_positions", cases)
-	c.MixHash(fmt.Sprint(n, mode, tickD, via))
-	c.Path = fmt.Sprint(n, mode, tickD, via)
+	c.MixHash(fmt.Sprint(n, mode, tickD, via, lastTick, atWake))
+	c.Path = fmt.Sprint(n, mode, tickD, via, lastTick, atWake)
 	c.Sample = map[string]interface{}{"script": src, "via": via, "error_mode": mode, "tick": tickD.String(), "deadline_positions": cases}
 }
